@@ -149,6 +149,9 @@ type Task struct {
 	// reported in deadlock explanations.
 	Mark     int
 	OpSteps  int // steps since the driver last called ResetOpSteps
+	// CallSteps: steps since the task's current top-level call began (nested
+	// calls included); negative while the task runs a driver-level bulk operation
+	CallSteps int
 	OpWaits  int
 	OpSpins  int
 	MaxSpins int
@@ -159,6 +162,9 @@ type Config struct {
 	Seed       uint64
 	Strategy   StrategyConfig
 	StepBudget uint64
+	// CallStepLimit: one top-level call that takes more than this many steps of
+	// its own is reported as never returning (0: no limit)
+	CallStepLimit int
 	Epoch      int64 // initial virtual time, ns since the Unix epoch
 	SpinLimit  int   // consecutive Gosched calls (per task, no write in the system) that prove a livelock
 	Replay     []uint16
@@ -303,7 +309,7 @@ func (s *Sim) SpawnBackground(name string, fn func()) *Task {
 
 //go:norace
 func (s *Sim) spawn(name string, fn func(), bg bool) *Task {
-	t := &Task{ID: len(s.tasks), Name: name, Background: bg, fn: fn}
+	t := &Task{ID: len(s.tasks), Name: name, Background: bg, fn: fn, CallSteps: -1 << 40} // no call yet (goroutines of the code under test never are "in a call")
 	t.wake = make(chan struct{}, 1)
 	t.exited = make(chan struct{})
 	t.fin = make(chan struct{})
@@ -561,6 +567,12 @@ func (s *Sim) step(kind OpKind, addr uintptr, gosched bool) {
 	s.TraceHash = mix64(s.TraceHash ^ (uint64(t.ID)<<40 | uint64(kind)<<32 | uint64(ord)))
 	if s.cfg.KeepTrace {
 		s.Trace = append(s.Trace, TraceEvent{t.ID, kind, ord})
+	}
+	t.CallSteps++
+	if s.cfg.CallStepLimit > 0 && t.CallSteps > s.cfg.CallStepLimit {
+		s.endRun(OutLivelock, s.describe(fmt.Sprintf("livelock: one call has taken more than %d steps of its own without returning", s.cfg.CallStepLimit)))
+		s.parkForever(t)
+		return
 	}
 	if s.Seq > s.cfg.StepBudget {
 		s.endRun(OutBudget, fmt.Sprintf("step budget %d exceeded", s.cfg.StepBudget))
